@@ -1,0 +1,57 @@
+//go:build verif
+
+package manifest
+
+// Contracts for the verif build tag (comment-only; see /verif/DESIGN.md).
+
+//@ prop C16
+//@ import keys github.com/nspcc-dev/neo-go/pkg/crypto/keys
+//@ import util github.com/nspcc-dev/neo-go/pkg/util
+
+//@ spec wfDesc(d PermissionDesc) bool = d.Type <= PermissionGroup && (d.Type == PermissionHash ==> is(d.Value, util.Uint160)) && (d.Type == PermissionGroup ==> is(d.Value, *keys.PublicKey))
+//@ spec contractOK(p Permission, h util.Uint160, m *Manifest) bool = p.Contract.Type == PermissionWildcard || (p.Contract.Type == PermissionHash && p.Contract.Value.(util.Uint160) == h) || (p.Contract.Type == PermissionGroup && exists(i, 0, len(m.Groups), keys.keyEq(p.Contract.Value.(*keys.PublicKey), m.Groups[i].PublicKey)))
+//@ spec methodOK(p Permission, method string) bool = p.Methods.Value == nil || exists(i, 0, len(p.Methods.Value), p.Methods.Value[i] == method)
+//@ spec allowed(p Permission, h util.Uint160, m *Manifest, method string) bool = contractOK(p, h, m) && methodOK(p, method)
+
+//@ func (*PermissionDesc).Hash
+//@ inline
+//@ func (*PermissionDesc).Group
+//@ inline
+//@ func (*WildStrings).IsWildcard
+//@ inline
+//@ func (*WildStrings).Contains
+//@ inline
+
+//@ func (*Permission).IsAllowed
+//@ requires p != nil && m != nil && wfDesc(p.Contract)
+//@ ensures[allowed] result == allowed(*p, hash, m, method)
+//@ seed-import keys github.com/nspcc-dev/neo-go/pkg/crypto/keys
+//@ seed-import util github.com/nspcc-dev/neo-go/pkg/util
+//@ seed-helper var seedKeysZZ = map[int]*keys.PublicKey{}
+//@ seed-helper func seedKeyZZ(i int) *keys.PublicKey { if k, ok := seedKeysZZ[i]; ok { return k }; pk, _ := keys.NewPrivateKey(); seedKeysZZ[i] = pk.PublicKey(); return seedKeysZZ[i] }
+//@ seed p &Permission{Contract: PermissionDesc{Type: PermissionGroup, Value: seedKeyZZ(1)}, Methods: WildStrings{Value: []string{"a"}}}
+//@ seed p &Permission{Contract: PermissionDesc{Type: PermissionHash, Value: util.Uint160{1}}, Methods: WildStrings{Value: []string{"a"}}}
+//@ seed p &Permission{Contract: PermissionDesc{Type: PermissionWildcard}, Methods: WildStrings{Value: []string{"a"}}}
+//@ seed p &Permission{Contract: PermissionDesc{Type: PermissionGroup, Value: seedKeyZZ(1)}}
+//@ seed m &Manifest{Groups: []Group{{PublicKey: seedKeyZZ(1)}}}
+//@ seed m &Manifest{Groups: []Group{{PublicKey: seedKeyZZ(2)}}}
+//@ seed hash util.Uint160{1}
+//@ seed method "a"
+//@ seed method "b"
+
+//@ func (*Permission).IsAllowed$1
+//@ ensures result == keys.keyEq(contractG, manifestG.PublicKey)
+
+//@ func (*Manifest).CanCall
+//@ requires m != nil && toCall != nil && forall(i, 0, len(m.Permissions), wfDesc(m.Permissions[i].Contract))
+//@ ensures[exists] result == exists(i, 0, len(m.Permissions), allowed(m.Permissions[i], hash, toCall, method))
+
+//@ func (*Manifest).CanCall$1
+//@ requires toCall != nil && wfDesc(p.Contract)
+//@ ensures result == allowed(p, hash, toCall, method)
+
+//@ func (Groups).Contains
+//@ ensures[exists] result == exists(i, 0, len(g), keys.keyEq(k, g[i].PublicKey))
+
+//@ func (Groups).Contains$1
+//@ ensures result == keys.keyEq(k, gr.PublicKey)
